@@ -599,7 +599,11 @@ func (g *gen) stmt() string {
 func render(r *hx.Rng, words []string, tight bool) string {
 	var sb strings.Builder
 	ws := func() string {
-		switch r.Intn(8) {
+		switch r.Intn(10) {
+		case 8:
+			return "\f" // form feed and vertical tab are white space too (page separators of listings)
+		case 9:
+			return "\v"
 		case 0:
 			return "\n"
 		case 1:
